@@ -6,6 +6,7 @@ close / GC interleaving) the model can take from the initial state; proofs are b
 -/
 import JanetModel.Loop.Model
 import JanetModel.Loop.FdsSpawn
+import JanetModel.Loop.Child
 
 namespace JanetModel.Props.C20
 open JanetModel.Loop
@@ -836,5 +837,69 @@ example : ((Fds.exec (Fds.St.init [0, 1, 2]) (Fds.progs Fds.Cfg.fixed
   decide +kernel
 
 end Descriptors
+
+/-! ## the full lifecycle of a subprocess handle: spawn → (wait | kill | close | gc) in every order (session 3) -/
+
+section ChildLifecycle
+open JanetModel.ChildLife (P)
+
+/-- tie: the kill / waitpid / posix_spawn sites of os.c are the ones the lifecycle model mirrors -/
+theorem child_sites_match : Gen.Fds.childSites = ChildLife.childSpec := by decide
+
+/-- WAITED ⇒ reaped; a returned helper thread has reaped and its wait is still marked outstanding; the finaliser does not run
+    while a wait is outstanding; a handle collected without `:d` leaves no child -/
+def ChildInv (s : P) : Prop :=
+  (s.waited = true → s.child = .reaped) ∧ (s.threadDone = true → s.child = .reaped ∧ s.waiting = true) ∧
+  (s.collected = true → s.waiting = false) ∧ (s.collected = true → s.allowZombie = false → s.child = .reaped)
+
+theorem child_step_inv {s s' : P} {e : ChildLife.Ev} (hi : ChildInv s) (h : ChildLife.step true s e = some s') : ChildInv s' := by
+  obtain ⟨h1, h2, h3, h4⟩ := hi
+  rcases s with ⟨child, waited, waiting, allowZombie, threadDone, collected, sk, er⟩
+  cases e <;> simp only [ChildLife.step, ChildLife.waitStart] at h
+  all_goals (cases child <;> cases waited <;> cases waiting <;> cases allowZombie <;> cases threadDone <;> cases collected <;>
+    simp_all [ChildInv, Loop.procGc])
+  all_goals (first | (subst h; simp_all) | (rename_i w; cases w <;> simp_all <;> subst h <;> simp_all))
+
+theorem child_run_inv : ∀ (es : List ChildLife.Ev) {s s' : P}, ChildInv s → ChildLife.run true s es = some s' → ChildInv s'
+  | [], s, s', hi, h => by simp [ChildLife.run] at h; subst h; exact hi
+  | e :: es, s, s', hi, h => by
+    simp only [ChildLife.run] at h
+    cases hs : ChildLife.step true s e with
+    | none => rw [hs] at h; simp at h
+    | some s1 => rw [hs] at h; exact child_run_inv es (child_step_inv hi hs) h
+
+/-- ★ no zombie accumulates: after ANY sequence of exits, waits (also by a second fiber: an error), cancelled waits, kills,
+    closes and finally the finaliser, in any order — a handle that has been waited for, or that has been collected (not spawned
+    with `:d`), has no process-table entry left -/
+theorem no_zombie_accumulates (allowZombie : Bool) (es : List ChildLife.Ev) {s : P}
+    (h : ChildLife.run true { allowZombie := allowZombie } es = some s)
+    (hend : s.waited = true ∨ (s.collected = true ∧ s.allowZombie = false)) : s.child = .reaped := by
+  have hi : ChildInv { allowZombie := allowZombie } := by simp [ChildInv]
+  obtain ⟨h1, _, _, h4⟩ := child_run_inv es hi h
+  rcases hend with hw | ⟨hc, ha⟩
+  · exact h1 hw
+  · exact h4 hc ha
+
+/-- an outstanding wait always completes once the child has exited: the two remaining steps are enabled, whatever happened
+    to the waiting fiber -/
+theorem outstanding_wait_completes (s : P) (hw : s.waiting = true) (ht : s.threadDone = false) (hz : s.child = .zombie) :
+    ∃ s', ChildLife.run true s [.threadReaps, .waitCb] = some s' ∧ s'.waited = true ∧ s'.waiting = false ∧ s'.child = .reaped := by
+  rcases s with ⟨child, waited, waiting, allowZombie, threadDone, collected, sk, er⟩
+  simp at hw ht hz
+  subst hw ht hz
+  exact ⟨_, rfl, rfl, rfl, rfl⟩
+
+/-- observed through the model, not replayed (needs a kill in the window between the helper thread's waitpid and its
+    callback): os/proc-kill tests only WAITED, so in that window it signals a pid that has already been reaped -/
+theorem kill_in_callback_window_hits_reaped_pid :
+    (ChildLife.run true {} [.waitStart, .exit, .threadReaps, .kill false]).map (·.staleKills) = some 1 := by decide
+
+/-- non-vacuity: wait in one fiber, a second wait (error), cancelled waiter, kill, exit, completion, close, gc -/
+example : (ChildLife.run true {} [.waitStart, .waitStart, .kill false, .exit, .threadReaps, .waitCb, .close, .gc]).map
+    (fun s => (s.child, s.waited, s.collected, s.errors)) = some (.reaped, true, true, 1) := by decide
+
+example : (ChildLife.run true {} [.kill false, .gc]).map (fun s => (s.child, s.collected)) = some (.reaped, true) := by decide
+
+end ChildLifecycle
 
 end JanetModel.Props.C20
